@@ -23,7 +23,7 @@ impl Prop for C02 {
         "exploration"
     }
     fn rule(&self) -> &'static str {
-        "one run = one random command tree (depth <= 4, fan-out <= 5, default leaves incl. anonymous, default branches incl. nested and at the root, numeric-suffixed sibling families, the same name reused in different scopes, extra common commands) and a seeded history of 1-20 messages from 1-3 controllers, each of 1-8 units mixing absolute, relative and common headers, default nodes omitted or spelled, short/long form, random case, suffix 1 present/absent, with undefined headers (7 kinds) and handler errors at any unit and in-flight corruption of predecessor messages; the handler-invocation log (which handler, event/query form) and -113 results are compared with the model resolver. distinct_nontrivial = distinct (tree id, start level depth, header form, units resolved, outcome) tuples"
+        "one run = one random command tree (depth <= 4, fan-out <= 5, default leaves incl. anonymous, default branches incl. nested and at the root, numeric-suffixed sibling families, the same name reused in different scopes, extra common commands) and a seeded history of 1-20 messages from 1-3 controllers, each of 1-8 units (one message in 60: a chain of 30-260 relative units) mixing absolute, relative and common headers, default nodes omitted or spelled, short/long form, random case, suffix 1 present/absent, with undefined headers (7 kinds) and handler errors at any unit and in-flight corruption of predecessor messages; the handler-invocation log (which handler, event/query form) and -113 results are compared with the model resolver. distinct_nontrivial = distinct (tree id, start level depth, header form, units resolved, outcome) tuples"
     }
     fn assumptions(&self) -> Vec<String> {
         vec![
@@ -45,6 +45,7 @@ impl Prop for C02 {
             "second_message_ambiguous_if_continued",
             "relative_after_unit_ending_on_branch",
             "common_between_relative_units",
+            "forty_relative_units_in_a_row",
             "leading_colon_after_deep_unit",
             "suffix1_elided_in_candidate",
             "suffix1_elided_in_definition",
@@ -110,14 +111,41 @@ impl Prop for C02 {
         let non_commons: Vec<usize> = tc.sim_leaves.iter().copied().filter(|i| !commons.contains(i)).collect();
         for _ in 0..nmsg {
             let k = if deep { 24 } else { *rng.pick(&[1usize, 2, 3, 5, 8]) };
-            let k = rng.urange(1, k);
+            let mut k = rng.urange(1, k);
+            // one message in 60: a long chain of relative units (30..260 units, no leading colon
+            // after the first one, now and then a common command in between) - "for messages of
+            // any number of units"
+            let long_rel = !non_commons.is_empty() && rng.chance(1, 60);
+            if long_rel {
+                k = *rng.pick(&[30usize, 31, 32, 33, 34, 40, 64, 65, 130, 260]);
+            }
             let mut units = Vec::new();
             let mut level: Vec<usize> = Vec::new();
             for i in 0..k {
-                let use_common = !commons.is_empty() && (non_commons.is_empty() || rng.chance(p_common, 100));
-                let li = if use_common { *rng.pick(&commons) } else { *rng.pick(&non_commons) };
+                let use_common = !commons.is_empty() && (non_commons.is_empty() || rng.chance(if long_rel { 3 } else { p_common }, 100));
+                let mut li = if use_common { *rng.pick(&commons) } else { *rng.pick(&non_commons) };
+                if long_rel && !use_common && i > 0 {
+                    let below: Vec<usize> = non_commons
+                        .iter()
+                        .copied()
+                        .filter(|j| tc.leaves[*j].path.len() > level.len() && tc.leaves[*j].path[..level.len()] == level[..])
+                        .collect();
+                    if !below.is_empty() {
+                        li = *rng.pick(&below);
+                    }
+                }
                 let leaf = tc.leaves[li].clone();
-                let (colon, path) = spell_header(&mut rng, &tc, &leaf, &level, i == 0, omit);
+                let (mut colon, mut path) = spell_header(&mut rng, &tc, &leaf, &level, i == 0, omit);
+                if long_rel && i > 0 {
+                    for _ in 0..12 {
+                        if !colon {
+                            break;
+                        }
+                        let (c, p) = spell_header(&mut rng, &tc, &leaf, &level, false, omit);
+                        colon = c;
+                        path = p;
+                    }
+                }
                 let query = rng.chance(1, 2);
                 let mut u = Unit {
                     colon,
@@ -142,7 +170,9 @@ impl Prop for C02 {
                 if i > 0 && rng.chance(1, 5) {
                     u.lead = crate::msg::gen_ws(&mut rng, false);
                 }
-                if rng.chance(p_undef, 100) {
+                if long_rel && i + 1 < k {
+                    // nothing fails in front of the last unit of a long chain
+                } else if rng.chance(p_undef, 100) {
                     if let Some((c, p, _kind)) = gen_undefined_header(&mut rng, &tc, &level, i == 0) {
                         u.colon = c;
                         u.path = p;
@@ -272,10 +302,19 @@ impl StepHandler for H02 {
         let mut prev_info: Option<crate::tree::ResolveInfo> = None;
         let mut prev_common = false;
         let mut prev_prev_relative = false;
+        let mut rel_chain = 0usize;
         for (k, u) in s.msg.units.iter().enumerate() {
             let (r, info) = resolve_ex(&world.root, &level, k == 0, u.colon, &u.path);
             let common = u.path[0].starts_with('*');
             let relative = k > 0 && !u.colon && !common;
+            if u.colon {
+                rel_chain = 0;
+            } else if relative && matches!(r, Resolved::Leaf { .. }) {
+                rel_chain += 1;
+                if rel_chain == 40 {
+                    stats.probe("forty_relative_units_in_a_row");
+                }
+            }
             match &r {
                 Resolved::Leaf { level: l, .. } => {
                     if relative {
